@@ -7,6 +7,8 @@ correspond: Model/Orient.v (run over Q, with numpy's own eigh answer for the ten
             Molecule._inertial_tensor; and the property oracle on the implementation (isometry, non-geometric fields, centre
             of mass, diagonal ascending inertia tensor, phase convention, frame uniqueness for asymmetric tops, orient twice,
             constructor / orient_molecule / from_data routes)."""
+import contextlib
+import io
 import math
 import os
 from fractions import Fraction as Fr
@@ -45,6 +47,10 @@ TRUSTED = [
 ]
 ASSUMPTIONS = [
     "validated molecules: total mass non-zero (all masses positive); 1-12 atoms",
+    "call histories: groups of 2-6 molecules sharing symbols + bit-identical geometry (other isotopes / explicit masses / ghosts / frame "
+    "flags / geometry_noise), or symbols + masses (one atom displaced), or geometry (one element replaced), are oriented back to back "
+    "in one interpreter in both orders and each judged on its own (oracle only); so are copy(update=...) of an already oriented-from "
+    "molecule and get_fragment(..., orient=True); _orient_molecule_internal must repeat its answer after the array it returned is overwritten",
     "frame uniqueness / orient-twice are claimed (and checked) for asymmetric tops only (gaps between principal moments >= 1e-2 of the "
     "largest); on the implementation they are checked up to the 8-decimal rounding amplified by the conditioning of the eigenvectors: "
     "tolerance 2e-8 * (1 + 4 sum m|x| max|x| / gap)",
@@ -108,8 +114,31 @@ def cmat(m):
 
 def build(case, geom=None):
     from qcelemental.models import Molecule
-    kw = dict(symbols=case["symbols"], geometry=np.array(geom if geom is not None else
-                                                         [[float(Fr(c)) for c in p] for p in case["geom"]], dtype=float).ravel())
+    ga = np.array(geom if geom is not None else [[float(Fr(c)) for c in p] for p in case["geom"]], dtype=float)
+    # the same numbers in the container the case asks for: flat (3n,) [default], (n,3), Fortran-ordered (n,3), the transposed view of
+    # a (3,n) array, a non-contiguous window of a larger array, big-endian, nested / flat Python lists
+    how = case.get("geometry_as") or "flat"
+    if how == "flat":
+        gg = ga.ravel()
+    elif how == "n3":
+        gg = ga
+    elif how == "n3f":
+        gg = np.asfortranarray(ga)
+    elif how == "n3t":
+        gg = np.array([ga[:, k].copy() for k in range(3)]).T
+    elif how == "slice":
+        big = np.full((2 * ga.shape[0] + 1, 7), 99.5)
+        gg = big[1::2, 2:5]
+        gg[...] = ga
+    elif how == "be":
+        gg = ga.ravel().astype(">f8")
+    elif how == "list":
+        gg = ga.tolist()
+    elif how == "flatlist":
+        gg = ga.ravel().tolist()
+    else:
+        raise ValueError(how)
+    kw = dict(symbols=case["symbols"], geometry=gg)
     if case.get("mass_numbers"):
         kw["mass_numbers"] = case["mass_numbers"]
     if case.get("masses"):
@@ -202,6 +231,24 @@ def deep_eq(a, b):
     return bool(a == b)
 
 
+def frame_complaints(g, w, gref, slack=0.0):
+    """a stored oriented geometry g (masses w) judged on its own: centred, diagonal ascending tensor, the shape of gref"""
+    out = []
+    g, w, gref = np.asarray(g, dtype=float), np.asarray(w, dtype=float), np.asarray(gref, dtype=float)
+    if g.shape != gref.shape:
+        return [("wrong number of atoms", [list(g.shape), list(gref.shape)])]
+    com = (w[:, None] * g).sum(axis=0) / w.sum()
+    if np.abs(com).max() > 6e-7:
+        out.append(("centre of mass is not at the origin", com.tolist()))
+    t = inertia_ref(g, w)
+    sc = 1.0 + float(np.abs(t).max())
+    if max(abs(t[0][1]), abs(t[0][2]), abs(t[1][2])) > 1e-6 * sc or not (t[0][0] <= t[1][1] + 1e-6 * sc and t[1][1] <= t[2][2] + 1e-6 * sc):
+        out.append(("inertia tensor is not diagonal ascending", t.tolist()))
+    if len(g) > 1 and np.abs(pair_dists(g) - pair_dists(gref)).max() > 1e-7 * (1.0 + float(np.abs(gref).max())) + slack:
+        out.append(("an interatomic distance changed", float(np.abs(pair_dists(g) - pair_dists(gref)).max())))
+    return out
+
+
 def oracle(case):
     """returns (failures, observations)"""
     from qcelemental.models import Molecule
@@ -212,7 +259,25 @@ def oracle(case):
     mol, kw = build(case)
     g0 = np.array(mol.geometry, dtype=float)
     w = np.array(mol.masses, dtype=float)
+    # the constructor keeps the caller's points (rounded to 8 decimals, |x| < 5**-9 -> 0), whatever container they came in
+    gin_ = np.array([[float(Fr(c)) for c in p] for p in case["geom"]], dtype=float)
+    if g0.shape != gin_.shape or not ((np.abs(g0 - gin_) <= 0.5e-8 + 1e-15 * np.abs(gin_)) | ((g0 == 0) & (np.abs(gin_) < 5.2e-7))).all():
+        bad("the molecule does not hold the points it was given (geometry handed over as " + (case.get("geometry_as") or "flat") + ")",
+            {"given": gin_.tolist(), "stored": g0.tolist()})
+        return fails, {"g0": g0, "w": w, "raw": g0, "g1": g0}
     raw = np.array(mol._orient_molecule_internal(), dtype=float)
+    # asked again, and again after the array handed out before has been overwritten: the same answer (nothing handed out is shared
+    # with later answers, nothing remembered from the earlier call changes the result)
+    again = mol._orient_molecule_internal()
+    same_again = np.array_equal(np.array(again, dtype=float), raw)
+    try:
+        again[...] = 12345.678
+    except Exception:
+        pass
+    third = np.array(mol._orient_molecule_internal(), dtype=float)
+    if not same_again or not np.array_equal(third, raw):
+        bad("_orient_molecule_internal() gives another answer when asked again / after the array it returned before was overwritten",
+            {"first": raw.tolist(), "again_equal": bool(same_again), "third": third.tolist()})
     omol = mol.orient_molecule()
     g1 = np.array(omol.geometry, dtype=float)
     n = len(w)
@@ -347,6 +412,43 @@ def oracle(case):
             a, b = d0.get(k, "<absent>"), da.get(k, "<absent>")
             if not deep_eq(a, b):
                 bad(f"{nm}: non-geometric field {k} differs from the unoriented molecule", [repr(a)[:200], repr(b)[:200]])
+    # get_fragment(..., orient=True): the fragment (alone / with the rest as ghosts) is centred and oriented with ITS atoms' masses
+    frs = (case.get("extra") or {}).get("fragments")
+    if frs and len(frs) == 2:
+        for real_, ghost_ in ((0, None), (1, None), (0, 1), (1, 0)):
+            idx = list(frs[real_]) + (list(frs[ghost_]) if ghost_ is not None else [])
+            nm = f"get_fragment({real_}, {ghost_}, orient=True)"
+            try:
+                with contextlib.redirect_stdout(io.StringIO()):        # the charge/multiplicity resolver prints its table when it gives up
+                    mol.get_fragment(real_, ghost_)
+            except Exception:
+                continue        # charge / multiplicity of this fragment cannot be settled: nothing to orient (not this property's business)
+            try:
+                fm = mol.get_fragment(real_, ghost_, orient=True)
+            except Exception as e:
+                bad(nm + " raised", repr(e))
+                continue
+            gf, wf = np.array(fm.geometry, dtype=float), np.array(fm.masses, dtype=float)
+            if not np.array_equal(wf, w[idx]):
+                bad(nm + ": masses are not those of the fragment's atoms", [wf.tolist(), w[idx].tolist()])
+                continue
+            for what_, ob_ in frame_complaints(gf, wf, g0[idx], 1.6e-6):
+                bad(nm + ": " + what_, ob_)
+    # a copy of the (already oriented-from) molecule with other masses / another geometry, oriented: judged on its own - whatever
+    # the first molecule remembers about its own orientation must not travel with copy()
+    try:
+        w2 = np.array([x * (1.0 + 0.25 * ((k * 7 + 3) % 5) / 4.0) for k, x in enumerate(w)], dtype=float)
+        for nm, upd, wexp, gexp in (("copy(update={'masses_': other masses}).orient_molecule()", {"masses_": w2}, w2, g0),
+                                    ("copy(update={'geometry': permuted axes + shift}).orient_molecule()",
+                                     {"geometry": np.around(g0[:, [1, 2, 0]] * np.array([1.0, -1.0, 1.0]) + np.array([0.5, -1.25, 2.0]), 8)}, w, g0)):
+            oc = mol.copy(update=upd).orient_molecule()
+            if not np.array_equal(np.array(oc.masses, dtype=float), wexp):
+                bad(nm + ": masses are not those of the copy", [np.array(oc.masses).tolist(), wexp.tolist()])
+                continue
+            for what_, ob_ in frame_complaints(np.array(oc.geometry, dtype=float), wexp, gexp, 1.6e-6):
+                bad(nm + ": " + what_, ob_)
+    except Exception as e:
+        bad("copy(update=...).orient_molecule() raised", repr(e))
     txt = psi4_text(case, g0)
     if txt is not None:
         o4 = Molecule.from_data(txt, orient=True)
@@ -398,7 +500,7 @@ def oracle(case):
             tiny = np.abs(c1).max() < 3e-8
             if not tiny and np.abs(c1 - c3).max() > utol:
                 bad("orienting twice changes the geometry", {"axis": ax, "once": c1.tolist(), "twice": c3.tolist(),
-                                                             "raw": raw[:, ax].tolist(), "raw2": raw2[:, ax].tolist()})
+                                                             "raw": raw[:, ax].tolist(), "raw2": raw2[:, ax].tolist(), "utol": utol})
     return fails, obs
 
 
@@ -468,7 +570,11 @@ def rnd_motion(rng):
         q = [rng.randint(-4, 4) for _ in range(4)]
         if sum(1 for x in q if x) >= 2:
             break
-    return {"q": q, "t": [fr_s(rnd_coord(rng, 4)) for _ in range(3)]}
+    t = [rnd_coord(rng, 4) for _ in range(3)]
+    if rng.random() < 0.1:
+        # far from the origin: 1e3 .. 1e5 bohr along one or more axes
+        t = [c + (rng.choice([-1, 1]) * rng.choice([1000, 12345, 100000]) if rng.random() < 0.6 else 0) for c in t]
+    return {"q": q, "t": [fr_s(c) for c in t]}
 
 
 def rich_block(rng, n, real=None):
@@ -590,9 +696,76 @@ def rnd_molecule(rng, shape):
             fl["fix_orientation"] = False
         case["flags"] = fl
     case["motion"] = rnd_motion(rng)
+    if rng.random() < 0.4:
+        case["geometry_as"] = rng.choice(["n3", "n3f", "n3t", "slice", "be", "list", "flatlist"])
     if rng.random() < 0.12:
         case["geometry_noise"] = rng.choice([4, 6, 6])       # the constructor's geometry_noise keyword
     return case
+
+
+def other_isotopes(rng, syms):
+    """mass numbers differing from the default isotope on at least one atom (None if every element here has a single isotope)"""
+    for _ in range(20):
+        mn = [rng.choice(ISOTOPES[s]) for s in syms]
+        if any(a != ISOTOPES[s][0] if s not in ("H", "He", "Li", "Br", "Fe") else a != {"H": 1, "He": 4, "Li": 7, "Br": 79, "Fe": 56}[s]
+               for a, s in zip(mn, syms)):
+            return mn
+    return None
+
+
+def rnd_history(rng):
+    """A group of molecules that share what a too coarsely keyed memo would be keyed on - the symbols and the bit-identical input
+    geometry - and differ in the rest: default masses / other isotopes / explicit masses / ghost flags / frame flags / another
+    geometry_noise; or share symbols and masses and differ in the geometry (one atom displaced: not congruent), or share the
+    geometry and differ in one element. 2-5 steps in random order, possibly with a repeat; returned twice: as generated, and the
+    rigidly moved copy with the steps in the opposite order."""
+    base = rnd_molecule(rng, rng.choice(["asym", "asym", "asym", "planar", "linear", "diatomic"]))
+    for k in ("mass_numbers", "masses", "real", "flags", "geometry_noise"):
+        base.pop(k, None)
+    syms, n = base["symbols"], len(base["symbols"])
+    pool = [{"label": "default masses"}]
+    mn = other_isotopes(rng, syms)
+    if mn:
+        pool.append({"label": "other isotopes", "mass_numbers": mn})
+    mn2 = other_isotopes(rng, syms)
+    if mn2 and mn2 != mn:
+        pool.append({"label": "other isotopes (2)", "mass_numbers": mn2})
+    pool.append({"label": "explicit masses",
+                 "masses": [round(ISOTOPES[s][0] * rng.choice([1.0, 1.01, 0.99]) + rng.choice([0.125, -0.125, 0.25, 0.375]), 3) for s in syms]})
+    if n > 1:
+        real = [rng.random() < 0.6 for _ in range(n)]
+        real[rng.randrange(n)] = True
+        if all(real):
+            real[rng.randrange(n)] = False
+        pool.append({"label": "ghost atoms", "real": real})
+        if mn:
+            pool.append({"label": "ghost atoms and other isotopes", "real": real, "mass_numbers": mn})
+    pool.append({"label": "every atom a ghost", "real": [False] * n})
+    pool.append({"label": "frame flags", "flags": {"fix_com": True, "fix_orientation": rng.random() < 0.5}})
+    pool.append({"label": "geometry_noise", "geometry_noise": rng.choice([4, 6])})
+    # same symbols and masses, one atom displaced (a different shape)
+    g2 = [list(p) for p in base["geom"]]
+    a = rng.randrange(n)
+    g2[a] = [fr_s(Fr(c) + Fr(rng.choice([-3, -2, 2, 3]), 2)) for c in g2[a]]
+    if far_enough([tuple(Fr(c) for c in p) for p in g2]):
+        pool.append({"label": "one atom displaced", "geom": g2})
+    # same geometry, one element replaced
+    s2 = list(syms)
+    b = rng.randrange(n)
+    s2[b] = rng.choice([e for e in ISOTOPES if e != syms[b]])
+    pool.append({"label": "one element replaced", "symbols": s2})
+    k = rng.randint(2, min(5, len(pool)))
+    steps = rng.sample(pool, k)
+    if rng.random() < 0.4:
+        steps.append(dict(rng.choice(steps), label="repeat of an earlier step"))
+    base["steps"] = steps
+    base["shape"] = "history"
+    P = [tuple(Fr(c) for c in p) for p in base["geom"]]
+    # (6 decimals: the constructor keeps 8, so the routes that start from the caller's numbers and from the stored molecule coincide)
+    Q = [tuple(Fr(round(x * 10 ** 6), 10 ** 6) for x in p) for p in move(P, base["motion"])]
+    mirror = dict(base, geom=[[fr_s(c) for c in p] for p in Q],
+                  steps=[dict(st) for st in reversed(steps) if "geom" not in st])
+    return [base] + ([mirror] if len(mirror["steps"]) >= 2 else [])
 
 
 def gen_cases(ctx):
@@ -631,6 +804,19 @@ def gen_cases(ctx):
                             "provenance": {"creator": "c16-probe", "version": "1.0", "routine": "corpus"}},
                   "flags": {"fix_symmetry": "c1"}, "motion": {"q": [1, -2, 1, 2], "t": ["1", "-1/2", "3"]}})
     cases.append({"stream": "corpus", "shape": "atom", "symbols": ["Ne"], "geom": z((1, 2, 3)), "motion": {"q": [1, 0, 1, 0], "t": ["1", "1", "1"]}})
+    # history corpus: one structure as four isotopologues (default, HDO-like, 18-O / 13-C / T, explicit masses), one after the other
+    cases.append({"stream": "history", "shape": "history", "symbols": ["O", "H", "H", "C", "H"],
+                  "geom": z(("31/100", "-11/50", "13/100"), ("193/100", "41/100", "-7/20"), ("-37/50", "83/50", "41/50"),
+                            ("23/100", "-117/100", "-231/100"), ("-7/5", "-41/20", "-29/10")),
+                  "motion": {"q": [1, -2, 1, 2], "t": ["1", "-1/2", "3"]},
+                  "steps": [{"label": "default masses"}, {"label": "other isotopes", "mass_numbers": [16, 2, 1, 12, 1]},
+                            {"label": "other isotopes (2)", "mass_numbers": [18, 1, 1, 13, 3]},
+                            {"label": "explicit masses", "masses": [15.2, 1.6, 1.1, 12.7, 2.4]},
+                            {"label": "ghost atoms", "real": [True, False, True, True, False]}]})
+    for _ in range(400 if T else 30):
+        for c in rnd_history(rng):
+            c["stream"] = "history"
+            cases.append(c)
     plan = [("asym", 6000 if T else 300), ("planar", 1500 if T else 80), ("linear", 1200 if T else 60), ("symtop", 1200 if T else 60),
             ("sphtop", 200 if T else 15), ("nearplanar", 800 if T else 50), ("flushzone", 300 if T else 25), ("diatomic", 400 if T else 30), ("atom", 60 if T else 8)]
     for shape, k in plan:
@@ -641,7 +827,43 @@ def gen_cases(ctx):
     return cases
 
 
+HIST_KEYS = ("symbols", "geom", "mass_numbers", "masses", "real", "flags", "extra", "geometry_noise", "motion", "geometry_as")
+
+
+def history_steps(case):
+    """the molecules of a history case: every step overrides some fields of the base molecule (None removes a field)"""
+    out = []
+    for st in case["steps"]:
+        sub = {k: case[k] for k in HIST_KEYS if case.get(k) is not None}
+        for k, v in st.items():
+            if k == "label":
+                continue
+            if v is None:
+                sub.pop(k, None)
+            else:
+                sub[k] = v
+        sub["shape"] = "history-step"
+        out.append(sub)
+    return out
+
+
+def oracle_history(case):
+    """The steps are oriented one after the other in this interpreter; each is judged on its own by the full oracle (so a frame, a
+    centre of mass, a mass vector or a flag remembered from an earlier molecule that shares symbols / geometry / masses shows up in
+    a later one)."""
+    fails, obs = [], None
+    for k, sub in enumerate(history_steps(case)):
+        f, obs = oracle(sub)
+        for x in f:
+            x["history"] = f"step {k + 1} of {len(case['steps'])} ({case['steps'][k].get('label', '')}), oriented after the earlier steps in one interpreter"
+        fails.extend(f)
+    return fails, obs
+
+
 def judge(case):
+    if case.get("steps"):
+        fails, obs = oracle_history(case)
+        return fails, {}, obs
     fails, obs = oracle(case)
     return fails, terms(case, obs), obs
 
@@ -650,7 +872,7 @@ def correspond(ctx):
     corr = Corr()
     corr.rule = ("molecules of 1-12 atoms with rational coordinates in [-5,5] (denominators 1..10), random isotopes / explicit masses / "
                  "ghost atoms, frame flags fix_com / fix_orientation (all four combinations) / fix_symmetry, of shapes: generic (asymmetric), planar, nearly planar (out-of-plane offsets 3e-8..1e-6, around the phase threshold), linear, symmetric top, spherical top, diatomic, single atom; each "
-                 "also as a rigidly moved copy (rational rotation from an integer quaternion + translation). A case is non-trivial if it "
+                 "also as a rigidly moved copy (rational rotation from an integer quaternion + translation, one in ten 1e3..1e5 bohr away); geometry handed over flat / (n,3) / Fortran / transposed view / strided window / big-endian / lists; history groups (same symbols + geometry, different masses / ghosts / flags, both orders). A case is non-trivial if it "
                  "has >= 2 atoms; distinct = distinct inputs")
     cases = gen_cases(ctx)
     buckets = {k: [] for k in CHK_TY}
@@ -659,6 +881,16 @@ def correspond(ctx):
             fails, trm, obs = judge(case)
         except Exception as e:
             corr.errors.append(f"oracle crashed on {case}: {e!r}")
+            continue
+        if case.get("steps"):
+            corr.count("history-groups")
+            corr.count("history-steps", len(case["steps"]))
+            for st in case["steps"]:
+                corr.hit("history_step_" + st.get("label", "?").replace(" ", "_"))
+            corr.nontriv({k: v for k, v in case.items() if k != "stream"})
+            for f in fails:
+                corr.failures.append({"stream": "oracle-history", "case": {k: v for k, v in case.items() if k != "stream"},
+                                      "what": f["what"], "observed": f["observed"], "history": f.get("history")})
             continue
         corr.count(case["stream"])
         corr.hit("shape_" + case["shape"])
@@ -684,6 +916,12 @@ def correspond(ctx):
             corr.hit("stored_zero_flip_of_a_coordinate_above_the_phase_threshold")
         if case.get("geometry_noise") is not None:
             corr.hit("geometry_noise_%d" % case["geometry_noise"])
+        if case.get("geometry_as"):
+            corr.hit("geometry_given_as_" + case["geometry_as"])
+        if any(abs(Fr(c)) >= 1000 for c in (case.get("motion") or {}).get("t", [])):
+            corr.hit("moved_copy_far_from_the_origin")
+        if len((case.get("extra") or {}).get("fragments") or []) == 2:
+            corr.hit("route_get_fragment_orient")
         if (case.get("extra") or {}).get("identifiers"):
             corr.hit("carries_identifiers_provenance_labels_connectivity")
         if (case.get("extra") or {}).get("fragments"):
@@ -796,8 +1034,11 @@ def known_flush_zone(fc):
     if what == "orienting twice changes the geometry":
         # the first or the second orientation was decided by an atom that its own result stores as 0.0, and the column is negated
         once, twice = ob.get("once", []), ob.get("twice", [])
+        # negated within the tolerance the oracle grants this very molecule for "unchanged" (1.1e-6 x the conditioning of its
+        # eigenvectors: the flush moves atoms by up to 5.12e-7, and a small gap between moments amplifies that)
+        tol = max(1.2e-6, float(ob.get("utol") or 0.0))
         return ((flush_zone_pattern(ob["raw"], once) or flush_zone_pattern(ob.get("raw2", []), twice)) and len(once) == len(twice)
-                and all(abs(a + b) <= 1.2e-6 for a, b in zip(once, twice)))
+                and all(abs(a + b) <= tol for a, b in zip(once, twice)))
     return False
 
 
@@ -819,17 +1060,23 @@ LEVEL_TEXT = (
     "C16_stored_sign_convention / C16_stored_first_nonzero_positive (returned molecule: the first atom with a non-zero coordinate is "
     "positive provided no earlier atom lies in the flush zone 1e-8 <= |x| < 5^-9) and C16_stored_sign_convention_flush_zone_refuted "
     "(without that proviso the clause is false: known finding C16-phase-flush-zone, replayed on the implementation every run); "
+    "C16_stored_isometry_within_rounding / C16_stored_distance_where_visible (every distance of the returned molecule is the original "
+    "one up to 2 sqrt 3 (0.5e-8 + 5^-9), up to 2 sqrt 3 0.5e-8 where nothing is flushed) and C16_stored_com_within_rounding (each "
+    "component of sum m x of the returned molecule is at most (0.5e-8 + 5^-9) sum |m|), "
+    "C16_stored_inertia_offdiagonal_within_rounding (off-diagonal entries of the returned molecule's inertia tensor are at most "
+    "d sum |m| (|u| + |v| + d), d = 0.5e-8 + 5^-9); "
     "C16_frame_unique (distinct moments: a copy moved by any orthogonal matrix and translation orients to the same coordinates, "
     "columns equal or entirely below 1e-8 and opposite), C16_mirror_image_same_frame, C16_orient_idempotent; for symmetric tops "
     "C16_frame_unique_up_to_eigenspace and C16_orient_twice_up_to_eigenspace (the two results differ by one orthogonal matrix "
     "commuting with the spectrum - nothing more is promised). Each run feeds numpy's own eigh answer to the generated body and the "
     "generated store, checks the eigh specification on it numerically, compares with _orient_molecule_internal and with the stored "
     "geometry of orient_molecule() / Molecule(orient=True, geometry_noise=...), and evaluates every clause on the implementation "
-    "(all construction routes, caller's arrays not modified).")
+    "(all construction routes incl. get_fragment(orient=True) and copy(update=...), caller's arrays not modified, call histories of "
+    "molecules that share symbols and geometry but not masses).")
 LEVEL_NOTE = (
-    "Clause map: distances -> C16_isometry (stored: oracle 1e-7); non-geometric fields -> C16_masses_untouched + translator "
+    "Clause map: distances -> C16_isometry (stored: C16_stored_isometry_within_rounding, _distance_where_visible; oracle 1e-7); non-geometric fields -> C16_masses_untouched + translator "
     "(only geometry/masses consulted, orient_molecule = Molecule(orient=True, **self.dict())) + oracle on every dict field; centre of "
-    "mass -> C16_com_at_origin; diagonal ascending -> C16_inertia_diagonal_ascending; sign convention -> C16_phase_convention_orient "
+    "mass -> C16_com_at_origin (stored: C16_stored_com_within_rounding); diagonal ascending -> C16_inertia_diagonal_ascending (stored: C16_stored_inertia_offdiagonal_within_rounding; order of the stored diagonal: oracle); sign convention -> C16_phase_convention_orient "
     "(internal), C16_stored_sign_convention (stored, flush zone excluded), _flush_zone_refuted; uniqueness -> C16_frame_unique / "
     "_up_to_eigenspace (exact, on the internal result; 'within the rounding' on stored geometries is oracle-only, tolerance amplified "
     "by the eigenvector conditioning); twice -> C16_orient_idempotent / C16_orient_twice_up_to_eigenspace (second orientation applied "
